@@ -405,7 +405,11 @@ class Header(Field):
 
         else:
             # old-format length
-            ##TODO: what if _llen needs to be (re)computed?
+            if self._llen != 0:
+                # never emit a length field narrower than the value needs (1, 2 or 4 octets)
+                need = self.int_byte_len(self.length)
+                need = 1 if need <= 1 else (2 if need == 2 else 4)
+                return max(self._llen, need)
             return self._llen
 
     @llen.register(int)
